@@ -486,4 +486,7 @@ pub enum Action {
     /// The (stubbed) autoalloc service creates (next free id) or removes (`id`) an allocation
     /// queue and records it through the real event streamer
     QueueEvent { create: bool, id: u32 },
+    /// A scheduling pass of the real autoalloc code (`perform_submits`): worker query against
+    /// the real core; the batch system of the cluster engine refuses every submission
+    AutoallocTick,
 }
